@@ -251,7 +251,12 @@ fn check_views<F: Scalar>(tag: &str, kernel: &Kernel<F>, mat: &Vec<Vec<Option<F>
 fn dense<F: Scalar>(p: &Params) {
     let (n, d, b) = (p.u("n", 3), p.u("d", 1), p.get("B", 64));
     let mutate = p.get("mut", 0);
-    let x = records::<F>(n, d, b);
+    let mut x = records::<F>(n, d, b);
+    // offs=k: every coordinate is shifted by 2^k (records far from the origin but close to each other; still exact)
+    let offs = p.get("offs", 0);
+    if offs > 0 {
+        x.mapv_inplace(|v| v + F::lit((offs as f64).exp2()));
+    }
     let m = method_from::<F>(p);
     let rhs = rhs_matrix::<F>(n, p.u("m", 1), p.get("R", 16));
     assume_poly_base_nonneg(&m, &x);
